@@ -402,6 +402,8 @@ func TestC06(t *testing.T) {
 			msg, _, _ = checkProgram(c, []uint64{c.Mem})
 		case "intercept":
 			msg = checkIntercept(c)
+		case "cost":
+			msg = checkCost(c)
 		default:
 			msg = checkTemplate(c)
 		}
@@ -434,6 +436,21 @@ func TestC06(t *testing.T) {
 				rec.Violation("pairing", c, tpl.name+fmt.Sprintf(" under memory limit %d: ", m)+msg)
 				return
 			}
+		}
+	}
+	// (5) iteration-cost stability of the memory accounting
+	for _, sn := range costSnippets {
+		idx++
+		if !rec.Mine(idx) {
+			continue
+		}
+		c := memCase{Source: costProgram(sn.body, rec.Pick(40, 400), "memory"), Mem: 1 << 34, CPU: 2_000_000_000, Kind: "cost", Name: sn.name}
+		rec.Eval()
+		rec.Class("cost-stability:" + sn.name)
+		rec.NonTrivial("cost|" + sn.name)
+		if msg := checkCost(c); msg != "" {
+			rec.Violation("cost", c, sn.name+": "+msg)
+			return
 		}
 	}
 	// (4) interception
